@@ -111,6 +111,19 @@ def analyse_comb(ctx, fi: FuncInfo) -> Comb:
         vm = match_vmap(t) if t.op == "call" else None
         if vm is not None and vm[0].op == "name" and vm[0].args[0].endswith(".searchsorted"):
             ss.append(("vmap", t))
+        if vm is not None and vm[0].op == "closure" and vm[1] is None:
+            # vmap(lambda target: searchsorted(ladder, target))(z): the ladder is captured, the positions are mapped over
+            # axis 0 -- the same lookup as searchsorted(ladder, z) on the whole position vector
+            try:
+                r_ = strip_wrappers(ev.open_closure(vm[0], list(vm[2]), at_call=t))
+            except AnalysisError:
+                r_ = None
+            if r_ is not None and r_.op == "call" and array_fn(r_) == "searchsorted":
+                ss = [x_ for x_ in ss if x_[1] is not r_]
+                ss.append(("direct", r_))
+                opened_ss = getattr(c, "_opened", [])
+                opened_ss.append((t, r_))
+                c._opened = opened_ss
     # the comb tooth may be computed in one loop and used in a second pass over the collected indices: loops over the
     # same range are the same iteration space
     uniq = {}
@@ -148,6 +161,9 @@ def analyse_comb(ctx, fi: FuncInfo) -> Comb:
                 and is_const(in_axes.args[0], None) and is_const(in_axes.args[1], 0)):
             c.problems.append("vmap(searchsorted) must map the positions only: in_axes=(None, 0)")
     index_term = st
+    for t_vm, r_dir in getattr(c, "_opened", []):
+        if r_dir is st:
+            index_term = t_vm          # the index vector the function works with is the result of the vmap call
     # cumulative = cumsum(abs(W))
     cs = m_arrcall(strip_wrappers(cum), "cumsum")
     if cs is None:
@@ -342,22 +358,44 @@ def _copies(ctx, fi: FuncInfo, c: Comb):
     # the loop covers all slots: range(S) with S == slots (already in COUNT-1); jitted: index vector has S entries
 
 
+def _comb_of(p, fi, q) -> str:
+    """qualified name of the sr.* comb the reconfiguration wrapper `fi` calls when self is exactly class q"""
+    ev = Evaluator(p)
+    ev.auto_inline_helpers = True
+    try:
+        ev.exact_types[sym("self")] = q
+        fr = ev.eval_function(fi, self_class=q)
+    except AnalysisError:
+        return "?"
+    ks = sorted({e.data.args[0].args[0] for e in ev.events if e.kind == "call" and e.data.args[0].op == "fn"
+                 and e.data.args[0].args[0].startswith("sr.")})
+    return ",".join(ks) or "?"
+
+
 def callers(ctx):
     p = ctx.p
     n = 0
+    done_callers = set()
     for q in p.subclasses("propagation.propagator"):
         ci = p.classes[q]
         for mname in ("stochastic_reconfiguration_local", "stochastic_reconfiguration_global"):
-            fi = ci.methods.get(mname)
-            if fi is None or fi.is_abstract:
+            # the implementation this class resolves the name to, evaluated for this class (a shared wrapper may pick
+            # its comb through a class-level strategy attribute); one judgement per (implementation, comb)
+            fi = p.lookup_method(q, mname)
+            if fi is None or fi.is_abstract or fi.is_refusal():
                 continue
+            kern = _comb_of(p, fi, q)
+            if (fi.qualname, kern) in done_callers:
+                continue
+            done_callers.add((fi.qualname, kern))
             n += 1
             k_split = common.prng1(ctx, fi)
             ctx.ob("PRNG-1", f"{fi.qualname}: the key is split before the offset is drawn", k_split >= 1,
                    f"{k_split} random.split call(s)", fi)
             ev = Evaluator(p)
             ev.auto_inline_helpers = True
-            fr = ev.eval_function(fi)
+            ev.exact_types[sym("self")] = q
+            fr = ev.eval_function(fi, self_class=q)
             R = ev.result(fr)
             calls = [e.data for e in ev.events if e.kind == "call" and e.data.args[0].op == "fn"
                      and e.data.args[0].args[0].startswith("sr.")]
@@ -520,6 +558,9 @@ def _alloc_dtype(t: T) -> Optional[str]:
     mm = m_method(t, "astype")
     if mm is not None and mm[1]:
         return show(mm[1][0], maxdepth=3)
+    if t.op == "call" and array_fn(t) in ("zeros_like", "ones_like", "empty_like") and call_parts(t)[1] and \
+            "dtype" not in call_parts(t)[2]:
+        return _alloc_dtype(call_parts(t)[1][0])
     if t.op == "call" and array_fn(t) in ("zeros", "ones", "empty"):
         kw = call_parts(t)[2]
         pos = call_parts(t)[1]
@@ -552,6 +593,9 @@ def _alloc_shape(t: T) -> Optional[str]:
                 t = strip_wrappers(getitem(b_.args[2], t.args[1]))
         else:
             break
+    zl = m_arrcall(t, "zeros_like", "ones_like", "empty_like")
+    if zl is not None and zl:
+        return _alloc_shape(zl[0])          # a buffer allocated like another one has its extent
     z = m_arrcall(t, "zeros", "ones", "empty")
     if z is not None and z:
         shp = z[0]
@@ -579,7 +623,7 @@ def stub(ctx):
     bind.bind5_stub(ctx, ["sr", "driver", "mpi_jax"])
     ci = p.cls("config.not_a_comm")
     # copy semantics of the stub
-    init = ci.methods.get("__init__")
+    init = p.lookup_method(ci.qualname, "__init__")
     vals = {}
     if init is not None:
         for nd in ast.walk(init.node):
@@ -589,12 +633,12 @@ def stub(ctx):
     ctx.ob("BIND-5", "config.not_a_comm: one rank, rank 0", vals.get("size") == 1 and vals.get("rank") == 0,
            f"size={vals.get('size')} rank={vals.get('rank')}", init)
     for mname, ret in (("Get_size", "size"), ("Get_rank", "rank")):
-        fi = ci.methods.get(mname)
+        fi = p.lookup_method(ci.qualname, mname)
         from ..model import returned_values
         ok = fi is not None and any(isinstance(v_, ast.Attribute) and v_.attr == ret for _, v_ in returned_values(fi.node))
         ctx.ob("BIND-5", f"config.not_a_comm.{mname} returns self.{ret}", ok, "", fi)
     for mname in ("Gather", "Scatter"):
-        fi = ci.methods.get(mname)
+        fi = p.lookup_method(ci.qualname, mname)
         ok = False
         if fi is not None:
             # evaluated with the class's own helpers in place: a store into the receive buffer whose value is the send
@@ -613,10 +657,10 @@ def stub(ctx):
                         ok = True
         ctx.ob("BIND-5", f"config.not_a_comm.{mname} copies the send buffer into the receive buffer", ok,
                "recbuf[:] = sendbuf" if ok else "stub does not copy send -> receive", fi)
-    fi = ci.methods.get("bcast")
+    fi = p.lookup_method(ci.qualname, "bcast")
     ok = fi is not None and any(isinstance(v_, ast.Name) and v_.id == fi.params[1].name for _, v_ in returned_values(fi.node))
     ctx.ob("BIND-5", "config.not_a_comm.bcast returns its argument", ok, "", fi)
-    fi = ci.methods.get("Reduce")
+    fi = p.lookup_method(ci.qualname, "Reduce")
     ok = False
     if fi is not None:
         prm = [x.name for x in fi.params if x.name != "self"]
